@@ -109,6 +109,21 @@ def generate(rng):
     if not scn['logs'] and rng.random() < 0.3:
         scn['late_log'] = True
         scn['late_at'] = rng.choice([1, 2, 3])
+    if rng.random() < 0.2:
+        # the pending output comes from real reads: an earlier bounded search (expect_exact, or expect with a search window)
+        # timed out and trimmed the search buffer to its tail; ALL of the pending text is due on the display, and none of it
+        # may be handed back again by the first call after the session
+        scn['pending'] = ''
+        scn['pre'] = {'n': rng.choice([3, 40, 200, 1500, 2500]), 'kind': rng.choice(['exact', 'window']),
+                      'w': rng.choice([1, 5, 50])}
+        if scn['enc'] and scn['out_kind'] != 'digits':
+            scn['out_kind'] = 'digits'
+        scn['after_expect'] = rng.random() < 0.7
+    if esc is not None and rng.random() < 0.04:
+        # an escape character that has no Latin-1 byte: interact() cannot look for it and raises; whatever it does, the
+        # user's terminal is in the mode it was found in afterwards
+        scn['esc_text'] = rng.choice([u'\u20ac', u'\u0100', u'\U0001f600'])
+        scn['esc_how'] = 'absent'
     gen_eintr(rng, scn)
     return scn
 
@@ -171,6 +186,13 @@ def run(scn, prop=None):
             slave = a.proc.handles[0]
             # a separate activity would be needed for full duplex; the script interleaves instead
             total = 0
+            pre = scn.get('pre')
+            if pre:
+                data = (('%06d|' % 0) * (int(pre['n']) // 7 + 1))[:int(pre['n'])].replace('0', 'P').encode()
+                try:
+                    yield ('write', slave, data)
+                except OSError:
+                    return
             for st in scn.get('child_out', []):
                 if st.get('at'):
                     yield ('at', st['at'][0], st['at'][1])
@@ -252,6 +274,27 @@ def run(scn, prop=None):
         pending = scn.get('pending', '')
         if pending:
             child.buffer = pending if enc else pending.encode('latin-1')
+        pre = scn.get('pre')
+        pre_raw = b''
+        pre_eof = False
+        if pre:
+            if pending:
+                raise HarnessError('pre and pending exclude each other')
+            if enc and scn.get('out_kind', 'digits') != 'digits':
+                raise HarnessError('pre in unicode mode needs ASCII child output')
+            never = u'\x00NEVER\x00' if enc else b'\x00NEVER\x00'
+            try:
+                if pre.get('kind') == 'window':
+                    child.expect([never], timeout=0.02, searchwindowsize=max(1, int(pre.get('w', 5))))
+                else:
+                    child.expect_exact([never], timeout=0.02)
+            except TIMEOUT:
+                pass
+            except EOF:
+                pre_eof = True
+            pre_raw = b''.join((c.encode(enc) if enc else c) for c in child.chunks)
+            if len(pre_raw) > len(child.buffer) and not pre_eof:
+                r.w.probe('search_buffer_trimmed_before_interact')
         ctr = [0]
         logs = {}
         for name in scn.get('logs', []):
@@ -289,6 +332,10 @@ def run(scn, prop=None):
                 return res_
             kwargs['output_filter'] = out_late
         escape_character = None if esc is None else chr(esc)
+        if scn.get('esc_text'):
+            escape_character = scn['esc_text']
+            if esc is None or all(ord(c) < 256 for c in escape_character):
+                raise HarnessError('esc_text must be a character without a Latin-1 byte')
         if scn.get('child_out') and any(st.get('rep') for st in scn['child_out']):
             if scn.get('in_cap', 4096) < 4096 or sum(len(b.get('d', '')) for b in scn.get('bursts', [])) > 3500:
                 raise HarnessError('flood scenario: typed input must fit into the input queue')
@@ -325,6 +372,8 @@ def run(scn, prop=None):
             will_end = scn.get('child_exit') is not None or (esc is not None and bytes([esc]) in (in_f(typed) if 'input_filter' in kwargs else typed))
             if will_end:
                 V('C15.hang', 'interact() never returned: %s' % exc)
+        elif res == 'EXC' and scn.get('esc_text') and isinstance(exc, (UnicodeEncodeError, ValueError, TypeError)):
+            r.w.probe('escape_character_refused')      # the caller's mistake; only the terminal mode is judged
         elif res == 'EXC':
             V('C15.exception', 'interact() raised %s: %s' % (type(exc).__name__, exc), site=harness._tb_site(exc))
             out[-1].site = harness._tb_site(exc)
@@ -336,9 +385,14 @@ def run(scn, prop=None):
         if res == 'ret':
             pend_b = pending.encode(enc or 'latin-1') if pending else b''
             want_disp = child_wrote
+            if pre_raw:
+                # what the earlier call had read is pending text (shown as it is); the filter sees what interact() reads itself
+                # (an earlier call that ended in EOF has handed the text back already: nothing is pending then)
+                pend_b = b'' if pre_eof else pre_raw
+                want_disp = child_wrote[len(pre_raw):]
             if filt in ('out', 'both'):
                 # a filter sees reads of <= 1000 bytes; '0' -> 'oo' is chunk-independent
-                want_disp = out_f(child_wrote)
+                want_disp = out_f(want_disp)
             want_disp = pend_b + want_disp
             # which way did it end?
             tf = in_f(typed) if 'input_filter' in kwargs else typed
@@ -413,7 +467,8 @@ def run(scn, prop=None):
                     continue
                 if name == 'logfile_read':
                     text = st().join(ws)
-                    want = (out_f(child_wrote) if filt in ('out', 'both') else child_wrote)[:len(disp) - len(pend_b)] if True else b''
+                    cw_ = child_wrote[len(pre_raw):]       # (what an earlier call read was read before the logs were attached)
+                    want = (out_f(cw_) if filt in ('out', 'both') else cw_)[:len(disp) - len(pend_b)]
                     wantt = want if enc is None else codecs.getincrementaldecoder(enc)('replace').decode(want, False)
                     if text != wantt:
                         V('C11.interact_read', 'logfile_read during interact() differs from what was copied to the display', log=name)
@@ -462,6 +517,30 @@ def run(scn, prop=None):
                       'before it returned at %.6f s' % (t_e / 1e6, len(later), t_ret / 1e6))
                 if scn.get('child_out') and scn['child_out'][0].get('rep'):
                     r.w.probe('escape_typed_while_the_child_floods')
+        # ---- after the session the pending output has either been consumed by it (shown to the user: gone) or is still
+        # pending as a whole; an object whose buffer attribute says 'nothing pending' must not hand the old text back
+        if res == 'ret' and pre and scn.get('after_expect') and not pre_eof and not out:
+            buf_after = child.buffer
+            c0_ = len(child.chunks)
+            never_ = u'\x00NEVER\x00' if enc else b'\x00NEVER\x00'
+            try:
+                child.expect_exact([never_], timeout=0)
+            except (TIMEOUT, EOF):
+                pass
+            except HarnessError:
+                raise
+            except SimHang:
+                pass
+            except UnicodeDecodeError:
+                pass        # the echo of arbitrary typed bytes is not text in this encoding: the scenario's doing
+            new_ = child.string_type().join(child.chunks[c0_:])
+            bef_ = child.before
+            pre_t = pre_raw.decode(enc) if enc else pre_raw
+            if isinstance(bef_, type(new_)) and bef_ != new_ and not buf_after and bef_.endswith(new_) and \
+                    pre_t.endswith(bef_[:len(bef_) - len(new_)]) and len(bef_) > len(new_):
+                V('C15.pending_again', 'after interact() the buffer attribute was empty, yet the next call handed back %d characters '
+                  'of the output that had been pending before the session (and was shown to the user by it)' % (len(bef_) - len(new_)))
+            r.w.probe('expect_after_interact_with_real_pending_text')
         # ---- after the session: the object goes back to ordinary use; what interact() left behind (decoder state of its
         # log helper, terminal mode) must not leak into the next operation's transcript
         if res == 'ret' and not kdead and logs and scn.get('after_interact') and not out:
